@@ -135,7 +135,10 @@ def h_lengths(kind: int, depth: int, wrapkind: int, shard=None) -> None:
     lo, hi = shard["range"]
     second = shard["second"]
     with concrete():
+        from vf.xh import sweep_should_stop
         for n in range(lo, hi + 1):
+            if sweep_should_stop():
+                return
             for m in second:
                 v = _wrap(_skeleton(kind, "a" * n, "b" * m), depth, wrapkind)
                 check_value(v, f"skeleton {kind} at depth {depth} lengths ({n},{m})")
@@ -145,7 +148,10 @@ def h_pairs(kind: int, depth: int, shard=None) -> None:
     reject_unless(kind in (3, 4, 6, 7, 8) and 0 <= depth <= 2)
     kind, depth = realize(kind), realize(depth)
     with concrete():
+        from vf.xh import sweep_should_stop
         for n in shard["ns"]:
+            if sweep_should_stop():
+                return
             for m in shard["ms"]:
                 check_value(_wrap(_skeleton(kind, "a" * n, "b" * m), depth, 0), f"skeleton {kind} at depth {depth} lengths ({n},{m})")
 
